@@ -411,6 +411,7 @@ func (p *Chip) AssertIsEqual(x, y Variable) {
 func (p *Chip) rangeCheckerCheck(x frontend.Variable, nbBits int) {
 	switch p.rangeCheckerType {
 	case NATIVE_RANGE_CHECKER:
+		fallthrough
 	case BIT_DECOMP_RANGE_CHECKER:
 		p.rangeChecker.Check(x, nbBits)
 	case COMMIT_RANGE_CHECKER:
